@@ -35,6 +35,7 @@ def run(prog, report, tier):
     quadalg.check_mirrors(prog, report)
     panels.check_integrate(prog, report)
     panels.check_exact_splitter(prog, report)
+    panels.check_asserts(prog, report)
     panels.check_binding(prog, report)
     panels.check_even(prog, report)
     panels.check_straight(prog, report, which=('bilform', ))
